@@ -33,10 +33,12 @@ func (param *Parameters) Dump() any {
 func (param *Parameters) Raw() []rune {
 	var r []rune
 
+	param.mutex.RLock()
 	for i := range param.PreParsed {
 		r = append(r, ' ')
 		r = append(r, param.PreParsed[i]...)
 	}
+	param.mutex.RUnlock()
 
 	return r
 }
